@@ -134,9 +134,14 @@ func (f lockFacts) suspicious(typ string) map[string]string {
 // ---------------------------------------------------------------- prepared states
 
 type prepState struct {
-	name  string
-	build func(obj interface{}) bool // false: this type cannot be brought into that state
+	name    string
+	build   func(obj interface{}) bool // false: this type cannot be brought into that state
+	present []int                      // seeds of keys / elements the state contains (nil: none)
 }
+
+// keys of the growth states start here: large enough that a key's bucket differs between the table
+// sizes before and after a growth (small integer keys hash to the same index in 101 and 203 buckets)
+const growthBase = 1000
 
 const oldKeySeed = 1 // a key / element every non-empty prepared state contains
 
@@ -222,25 +227,27 @@ func boundName(obj interface{}) string {
 
 func preparedStates(c ctor) []prepState {
 	st := []prepState{
-		{"empty", func(o interface{}) bool { return true }},
-		{"one element", func(o interface{}) bool { return insertN(o, 1, 1) }},
-		{"three elements", func(o interface{}) bool { return insertN(o, 1, 3) }},
+		{"empty", func(o interface{}) bool { return true }, nil},
+		{"one element", func(o interface{}) bool { return insertN(o, 1, 1) }, []int{1}},
+		{"three elements", func(o interface{}) bool { return insertN(o, 1, 3) }, []int{1, 3}},
 	}
 	if boundName(c.mk()) != "" {
 		for _, m := range []int{1, 2, 3} {
 			m := m
 			st = append(st, prepState{fmt.Sprintf("bounded at %d and full", m), func(o interface{}) bool {
 				return callByName(o, boundName(o), m) && insertN(o, 1, m)
-			}})
+			}, []int{1}})
 		}
 		st = append(st, prepState{"bounded at 2, one free slot", func(o interface{}) bool {
 			return callByName(o, boundName(o), 2) && insertN(o, 1, 1)
-		}})
+		}, []int{1}})
 	}
 	if g := growthPoint(c.mk); g > 0 {
 		st = append(st,
-			prepState{fmt.Sprintf("%d entries: the next new key grows the table", g), func(o interface{}) bool { return insertN(o, 1, g) }},
-			prepState{fmt.Sprintf("%d entries: the table has just grown", g+1), func(o interface{}) bool { return insertN(o, 1, g+1) }})
+			prepState{fmt.Sprintf("%d entries: the next new key grows the table", g), func(o interface{}) bool { return insertN(o, growthBase, g) },
+				[]int{growthBase, growthBase + g/2, growthBase + g - 1}},
+			prepState{fmt.Sprintf("%d entries: the table has just grown", g+1), func(o interface{}) bool { return insertN(o, growthBase, g+1) },
+				[]int{growthBase, growthBase + g/2}})
 	}
 	return st
 }
@@ -271,7 +278,11 @@ func sweep(env *vh.Env, rep *vh.Report, only map[string]bool, facts lockFacts) {
 				continue
 			}
 			for _, st := range states {
-				for _, key := range []int{oldKeySeed, newKeyFor(c.name)} {
+				old := oldKeySeed
+				if len(st.present) > 0 {
+					old = st.present[0]
+				}
+				for _, key := range []int{old, newKeyFor(c.name)} {
 					empty := st.name == "empty"
 					if blocksByDesign(c.name, m, empty) {
 						continue
@@ -337,9 +348,9 @@ func sweep(env *vh.Env, rep *vh.Report, only map[string]bool, facts lockFacts) {
 			continue
 		}
 		reached[tm] = true
-		keyTxt := "new key"
-		if r.key == oldKeySeed {
-			keyTxt = "existing key"
+		keyTxt := "existing key"
+		if r.key == newKeyFor(r.typ) {
+			keyTxt = "new key"
 		}
 		canonText := fmt.Sprintf("sweep %s %s / %s", tm, r.state, keyTxt)
 		rep.Case(canonText, true)
